@@ -488,10 +488,17 @@ func (serviceCore *ServiceCore) FilterDatasets(
 	result := make([]server.DatasetName, 0)
 
 	for _, dataset := range datasets {
+		granted, denied := false, false
 		for _, ac := range acl {
-			if serviceCore.CheckGranted(ac, "/datasets/"+dataset.Name, "read") {
-				result = append(result, dataset)
+			if serviceCore.CheckDenied(ac, "/datasets/"+dataset.Name, "read") {
+				denied = true
 			}
+			if serviceCore.CheckGranted(ac, "/datasets/"+dataset.Name, "read") {
+				granted = true
+			}
+		}
+		if granted && !denied {
+			result = append(result, dataset)
 		}
 	}
 
@@ -499,11 +506,21 @@ func (serviceCore *ServiceCore) FilterDatasets(
 }
 
 func (serviceCore *ServiceCore) CheckGranted(ac *AccessControl, resource string, action string) bool {
+	return !ac.Deny && serviceCore.applies(ac, resource, action)
+}
+
+// CheckDenied tells whether ac is a deny entry for the given resource and action
+func (serviceCore *ServiceCore) CheckDenied(ac *AccessControl, resource string, action string) bool {
+	return ac.Deny && serviceCore.applies(ac, resource, action)
+}
+
+// applies tells whether the entry's resource (exact, or a pattern with trailing *) and action cover the request
+func (serviceCore *ServiceCore) applies(ac *AccessControl, resource string, action string) bool {
 	if ac.Resource == resource {
 		if action == "read" && (ac.Action == "read" || ac.Action == "write") {
-			return !ac.Deny
+			return true
 		} else if action == ac.Action {
-			return !ac.Deny
+			return true
 		}
 	}
 
@@ -513,9 +530,9 @@ func (serviceCore *ServiceCore) CheckGranted(ac *AccessControl, resource string,
 		pattern := ac.Resource[:len(ac.Resource)-1]
 		if strings.HasPrefix(resource, pattern) {
 			if action == "read" && (ac.Action == "read" || ac.Action == "write") {
-				return !ac.Deny
+				return true
 			} else if action == ac.Action {
-				return !ac.Deny
+				return true
 			}
 		}
 	}
